@@ -258,7 +258,7 @@ def run(tier):
     for t in JUNK:
         ph_check(acc, t)
     # "any text whatsoever": every string of up to four characters over a small alphabet of digits, separators, signs, blanks and letters
-    JA = ['0', '1', '9', ':', ';', '.', ',', '-', '+', ' ', 'e', 'x', '\t'] if tier == 'thorough' else ['0', '7', ':', ';', '.', ',', '-', '+', ' ', 'e']
+    JA = ['0', '1', '9', ':', ';', '.', ',', '-', '+', ' ', 'e', 'x', '\t', '%', 's', 'd', '{', '}', '\\'] if tier == 'thorough' else ['0', '7', ':', ';', '.', ',', '-', '+', ' ', 'e', '%', 's', '{', '\\']
     for n in range(1, 5):
         for t in itertools.product(JA, repeat=n):
             ph_check(acc, ''.join(t))
